@@ -10,8 +10,8 @@ RULE = ("symbolic execution (z3) of the real poll functions (coroutine state mac
 
 def check(run, only=None):
     p = 2 if run.tier == "quick" else 3
-    e3.run_parts(run, ["dispatcher", "ruleset", "two_calls", "calling_rules", "paths"], only=only, pendings=p)
-    run.extra["bounds"] = {"pending_polls_per_await": p}
+    e3.run_parts(run, ["dispatcher", "ruleset", "two_calls", "calling_rules", "paths"], only=only, pendings=p, pendings_heavy=2)
+    run.extra["bounds"] = {"pending_polls_per_await": {"node kinds and access paths": p, "ruleset loop, two calls, calling rules": 2}}
     run.assumptions += ["a suspended evaluation is resumed by polling the same future again (the contract of Future); wakers are not modelled"]
     run.outside_claim += ["true concurrency (threads): the executor explores poll schedules of ONE evaluation; that evaluations cannot influence each other "
                           "is argued from the absence of writes to shared regions, not from interleaved execution",
